@@ -45,10 +45,13 @@ CLAIMED["C06"] = dict(
          "_is_guard_satisfied is RE-TRANSLATED from the current source on every run (harness/py2coq_guard.py -> coq/Gen/GenGuard.v: all(...) / "
          "any(...) over the recursing generator in Python's short-circuit order, exceptions in the option monad, `not` on children[0]) and "
          "proved to compute the model's evaluation at ANY nesting depth (C06_composites_are_the_source, C06_transition_guard_is_the_source); "
-         "the non-composite guards (stateIn, user predicate, raise = false, missing = error) are the oracle of that theorem and stay with the "
-         "correspondence, which now also covers a guard whose value changes between two microsteps of one settle. Tied to the code by K-macro on exhaustively "
+         "the built-in stateIn guard is tied the same way - the part of _is_state_in after the decoding of its params is re-translated "
+         "(harness/py2coq.py -> coq/Gen/GenStateIn.v) and proved equal to the model's state_in on every machine and active set "
+         "(C06_statein_is_the_source, C06_source_statein_spec: true exactly when a state the name designates is active); the other non-composite guards "
+         "(user predicate, raise = false, missing = error) are the oracle of the composite theorem and stay with the "
+         "correspondence, which also covers near-miss stateIn spellings (a target that is a suffix or prefix of a state key without being a path segment) and a guard whose value changes between two microsteps of one settle. Tied to the code by K-macro on exhaustively "
          "enumerated formulas (depth <= 2 over 10 atoms incl. falsy params) at 3 positions x 4 valuations x both operand spellings x guard/cond.",
-    technique="Coq proof (structural induction on guards) + source-translated composite evaluator (tie T) + vm_compute correspondence",
+    technique="Coq proof (structural induction on guards) + source-translated composite evaluator and stateIn test (tie T) + vm_compute correspondence",
     design_ref="DESIGN.md section 5 C06")
 CLAIMED["C10"] = dict(
     category="proof",
@@ -151,10 +154,16 @@ CLAIMED["C12"] = dict(
          "machine lacks. C12_restored_continues_alike: for EVERY continuation (any sequence of sends, sync engine, machines without transitions into "
          "the root or into history states) the restored interpreter and the original produce identical logs, context, history, status and output "
          "and configurations equal as sets; C12_restored_continues_alike_h: the same with transitions into history states (what they restore comes "
-         "from the snapshot's history section). Partial: async continuations are checked by correspondence (every "
+         "from the snapshot's history section). TIE T: from_snapshot is sliced and re-translated from the current source on every run (harness/py2coq_tree.py -> "
+         "coq/Gen/GenGeom.v): the statements that make ONE listed state active, with their parent-chain walk (restore_add), the loop over the stored "
+         "configuration with its StateNotFoundError (restore_cfg_src) and the rebuilding of the history store (restore_hist_src) are proved equal to the "
+         "model's restore (C12_restore_step_is_the_source, C12_restore_cfg_is_the_source, C12_restore_history_is_the_source, C12_restore_is_the_source); "
+         "the five fields get_persisted_snapshot writes of the interpreter's own state are sliced from the returned dict and proved to denote the model's "
+         "persist (C12_persist_is_the_source); the slicer refuses when the active set or the history store is touched anywhere else in from_snapshot. "
+         "Partial: async continuations are checked by correspondence (every "
          "cut point k of random runs, restored vs uninterrupted, K-snap); JSON validity, isolation from later execution and corrupt-stream "
          "rejection are runtime monitors; child actors are outside Snap.v.",
-    technique="Coq proof (sorting canonical under permutation; restore/persist round trip) + vm_compute correspondence (K-snap) + restore-vs-uninterrupted runs",
+    technique="Coq proof (sorting canonical under permutation; restore/persist round trip; whole continuations) over a model proved equal to the source-translated restore loop and persisted fields (tie T) + vm_compute correspondence (K-snap) + restore-vs-uninterrupted runs",
     design_ref="DESIGN.md section 5 C12")
 CLAIMED["C16"] = dict(
     category="proof",
